@@ -9,13 +9,6 @@ open TlxVerif.C09 (SWO Tree ceilLog2)
 
 variable {α : Type}
 
-theorem Run.append {stable : Bool} {lt : α → α → Bool} {s1 s2 s3 : List (List α)} {n m : Nat} {o1 o2 : List α}
-    (h1 : Run stable lt s1 n o1 s2) (h2 : Run stable lt s2 m o2 s3) : Run stable lt s1 (n + m) (o1 ++ o2) s3 := by
-  unfold Run at *
-  cases stable with
-  | true => exact StableRun.append h1 h2
-  | false => exact MinRun.append h1 h2
-
 /-- the invariant of the unguarded phase satisfies what the unguarded loser tree merge needs, when
 the tree's sentinel is not less than `mn` -/
 theorem uinv_prepare {lt : α → α → Bool} (hlt : SWO lt) (stb : Bool) (mn : α) (ms c : Nat) (sentinel : α)
